@@ -291,7 +291,7 @@ prop("C18", level="exploration", engine="vgraph",
 prop("C19", level="exploration", engine="vgraph",
      technique="exhaustive enumeration of an attribute grammar (all single items and all pairs) through catch_unwind(generate) and (single items + same-key pairs) through rustc with the real proc-macro; must-reject predicates from the reference",
      text="Every single item and every pair of items of the attribute grammar is run through the library entry point: no panic, and every definition carrying a must-reject predicate (nullable, start look-behind, unsupported feature, greedy dot anywhere, undefined subpattern, bad variant shape) yields compile_error!.",
-     note="Two execution paths: the library entry point under catch_unwind, and rustc on the stable toolchain with the real proc-macro (span operations differ there).", design_ref="5 C19", steps=[step_vgraph("c19"), step_vgraph("c19big"), step_layer1, step_probe], assumptions=["the derive cannot type-check user-supplied fragments; rustc errors inside those are not counted"])
+     note="Two execution paths: the library entry point under catch_unwind, and rustc on the stable toolchain with the real proc-macro (span operations differ there).", design_ref="5 C19", steps=[step_vgraph("c19"), step_vgraph("c13cb"), step_vgraph("c19big"), step_layer1, step_probe], assumptions=["the derive cannot type-check user-supplied fragments; rustc errors inside those are not counted"])
 
 L2_ASSUME = L1_ASSUME + ["Layer 2 compiles the library expansion (logos_codegen::generate) of a compiled sub-corpus; the proc-macro wrapper is a one-line call of the same function (bound by vderive)",
                          "inputs at Layer 2 are bounded: all strings up to L symbols over a representative alphabet + transition cover x 256 + loop inputs"]
@@ -331,7 +331,7 @@ prop("C13", level="exploration", engine="vderive",
      technique="exhaustive enumeration of all inputs up to a length bound through enums compiled with the REAL derive, carrying callbacks of every documented return type; item streams, spans and callback invocation logs compared with a hand-written reference + the documented table; tail-call vs state-machine transcripts compared by digest",
      text="Every documented callback return type (named function and closure forms, skip callbacks, any-token forms, with and without an error callback) produces exactly the documented item for every enumerated input; callbacks run once per winning match with span()/slice() equal to the match; Skip from a callback is indistinguishable from a skip pattern (twin enum); bumping inside a callback extends the item.",
      note="The reference lexer for these enums is hand-written (first letter + digits), independent of vcore and of logos.", design_ref="5 C13",
-     steps=[step_vderive("c13", ["tc-u-dev", "sm-u-dev"], ["tc-u-dev", "sm-u-dev", "tc-f-dev", "sm-f-dev", "tc-u-rel", "sm-u-rel", "tc-f-rel", "sm-f-rel"], compare_digests=True)], assumptions=["callback decisions are pure functions of the matched text"])
+     steps=[step_vgraph("c13cb"), step_vderive("c13", ["tc-u-dev", "sm-u-dev"], ["tc-u-dev", "sm-u-dev", "tc-f-dev", "sm-f-dev", "tc-u-rel", "sm-u-rel", "tc-f-rel", "sm-f-rel"], compare_digests=True)], assumptions=["callback decisions are pure functions of the matched text"])
 prop("C14", level="model_checking", engine="vderive",
      technique="breadth-first exploration of all histories of public Lexer API calls on real Lexer objects, de-duplicated on the canonical observable state; differential oracle against a fresh lexer on the remainder",
      text="From every reachable state (definition, span, mode, extras) of two definition pairs over 14 sources: slice()/remainder() agree with the source, next() equals a fresh lexer of the active definition and mode on the remainder, clones are independent, morph preserves position / mode / extras and is undone by morphing back, spanned() equals manual iteration.",
@@ -447,7 +447,7 @@ def replay_once(path):
     kind = (rec.get("replay") or {}).get("kind")
     H.build_tools()
     out = os.path.join(H.OUT, "replay.json")
-    if kind in ("layer1", "tokens", "c16", "c18", "c19"):
+    if kind in ("layer1", "tokens", "c16", "c18", "c19", "c13cb"):
         rep = H.run_engine([H.tool("vgraph"), "replay", "--prop", rec["property"], "--file", path, "--out", out], out)
     elif kind in ("layer2", "readprobe"):
         tier = "quick"
